@@ -78,7 +78,7 @@ def draw_cfg(st):
         w_ops = [6, 6, 1, 1, 1, 0, 1]
     cfg["w_ops"] = w_ops
     nf = st.weighted([3, 4, 2, 1], "n-faulty")
-    cfg["faulty"] = [[list(MASKS[st.choose(len(MASKS), "mask")]), st.choose(4, "exc-kind"),
+    cfg["faulty"] = [[list(MASKS[st.choose(len(MASKS), "mask")]), st.choose(6, "exc-kind"),
                       st.choose(2, "before-tap")] for _ in range(nf)]
     return cfg
 
